@@ -255,6 +255,10 @@ type Termer struct {
 	// read before and a read after a possible mutation are different terms.
 	Versioned bool
 	curLoad   ssa.Instruction
+	// ctxAt: when this Termer renders a callee that is analysed inline in a
+	// caller (inline.go), the call instruction in the caller: a field the
+	// callee does not store itself has the version it has there.
+	ctxAt ssa.Instruction
 }
 
 func NewTermer(fn *ssa.Function) *Termer {
@@ -509,6 +513,11 @@ func (t *Termer) term(v ssa.Value) string {
 	case *ssa.SliceToArrayPointer:
 		return t.T(x.X)
 	case *ssa.Call:
+		if g := x.Common().StaticCallee(); g != nil && inlineable(g) {
+			if s, ok := inlineCallTerm(t, x, g); ok {
+				return s
+			}
+		}
 		args := CallArgs(x)
 		var as []string
 		for _, a := range args {
@@ -678,6 +687,15 @@ func (t *Termer) load(addr ssa.Value) string {
 		if v := heapFieldVersion(addr, t.curLoad); v != "" {
 			return t.path(addr) + "@" + v
 		}
+		if t.ctxAt != nil {
+			if fa, ok := addr.(*ssa.FieldAddr); ok {
+				if fv, _ := fieldOf(fa); fv != nil {
+					if v := fieldVersionAt(fv, t.ctxAt); v != "" {
+						return t.path(addr) + "@" + v
+					}
+				}
+			}
+		}
 	}
 	return t.path(addr)
 }
@@ -698,23 +716,41 @@ func heapFieldVersion(addr ssa.Value, load ssa.Instruction) string {
 	if fv == nil {
 		return ""
 	}
+	return fieldVersionAt(fv, load)
+}
+
+// fieldVersionAt: version of field fv for a load at instruction `load` of its function.
+func fieldVersionAt(fv *types.Var, load ssa.Instruction) string {
 	fn := load.Parent()
 	n := 0
 	for _, b := range fn.Blocks {
 		for _, in := range b.Instrs {
-			st, ok := in.(*ssa.Store)
-			if !ok {
-				continue
-			}
-			sfa, ok := st.Addr.(*ssa.FieldAddr)
-			if !ok {
-				continue
-			}
-			sfv, _ := fieldOf(sfa)
-			if sfv != fv {
+			var st ssa.Instruction
+			switch x := in.(type) {
+			case *ssa.Store:
+				sfa, ok := x.Addr.(*ssa.FieldAddr)
+				if !ok {
+					continue
+				}
+				if sfv, _ := fieldOf(sfa); sfv != fv {
+					continue
+				}
+				st = x
+			case *ssa.Call:
+				// a new (virtually inlined, see inline.go) helper that stores the field
+				// counts as a store at the call, as it did before it was extracted
+				g := x.Common().StaticCallee()
+				if g == nil || !inlineable(g) || !storesField(g, fv, 2) {
+					continue
+				}
+				st = x
+			default:
 				continue
 			}
 			if InstrDominates(st, load) {
+				if stInner, ok := st.(*ssa.Call); ok && conditionalStore(stInner.Common().StaticCallee(), fv) {
+					return "u" // the helper stores on some paths only
+				}
 				n++
 			} else if instrReaches(st, load) {
 				return "u"
@@ -1268,4 +1304,42 @@ func reachingStore(root *ssa.Alloc, load ssa.Instruction) ssa.Value {
 		}
 	}
 	return best.Val
+}
+
+
+func storesField(g *ssa.Function, fv *types.Var, depth int) bool {
+	found := false
+	Instrs(g, func(in ssa.Instruction) {
+		switch x := in.(type) {
+		case *ssa.Store:
+			if f, _ := fieldOf(x.Addr); f == fv {
+				found = true
+			}
+		case *ssa.Call:
+			if h := x.Common().StaticCallee(); h != nil && depth > 0 && inlineable(h) && storesField(h, fv, depth-1) {
+				found = true
+			}
+		}
+	})
+	return found
+}
+
+// conditionalStore: g stores fv, but not in a block that dominates all of g's returns.
+func conditionalStore(g *ssa.Function, fv *types.Var) bool {
+	cond := false
+	Instrs(g, func(in ssa.Instruction) {
+		st, ok := in.(*ssa.Store)
+		if !ok {
+			return
+		}
+		if f, _ := fieldOf(st.Addr); f != fv {
+			return
+		}
+		Instrs(g, func(r ssa.Instruction) {
+			if _, isRet := r.(*ssa.Return); isRet && !InstrDominates(st, r) {
+				cond = true
+			}
+		})
+	})
+	return cond
 }
